@@ -369,6 +369,18 @@ impl<'a> BlockGen<'a> {
 
     /// Generate one def (possibly followed by a cast-to-base def); sizes obey the P-Code typing rules.
     pub fn def(&mut self, t: &mut Tape, out: &mut Vec<PDef>) {
+        // stack pointer arithmetic and alignment masks (what function prologues contain)
+        if t.prob(12) {
+            let sp = PVar::Reg { name: self.table.sp.clone(), size: 8 };
+            let d = match t.below(3) {
+                0 => PDef { lhs: Some(sp.clone()), op: "INT_AND", ins: [Some(sp), Some(PVar::Const { val: (-(1i128 << (2 + t.below(5) as u32))) as u128 & rs::mask(8), size: 8 }), None] },
+                1 => PDef { lhs: Some(sp.clone()), op: "INT_SUB", ins: [Some(sp), Some(PVar::Const { val: *t.choose(&[8u128, 16, 24, 0x28, 0x100]), size: 8 }), None] },
+                _ => PDef { lhs: Some(sp.clone()), op: "INT_ADD", ins: [Some(sp), Some(PVar::Const { val: (-(*t.choose(&[8i128, 16, 32]))) as u128 & rs::mask(8), size: 8 }), None] },
+            };
+            self.feat("sp-arith-or-mask");
+            out.push(d);
+            return;
+        }
         let s = *t.choose(&[8usize, 4, 8, 2, 1, 4, 16]);
         let k = t.below(26);
         let d = match k {
